@@ -54,6 +54,10 @@ def src_mask(rng, shape, kind):
         m[h // 2:, w // 2:] = False
         for _ in range(rng.randint(2, 6)):
             m[rng.randrange(h // 2 + 1, h), rng.randrange(w // 2 + 1, w)] = True
+        # ... and one small cluster: an isolated pixel is corrected to the reference value whatever the block normalisation was, a few pixels
+        # sharing a kernel window are not
+        r, c = rng.randrange(h // 2 + 1, max(h // 2 + 2, h - 2)), rng.randrange(w // 2 + 1, max(w // 2 + 2, w - 3))
+        m[r:r + 2, c:c + 3] = True
     return m
 
 
